@@ -1429,6 +1429,10 @@ def _handle_note(e, position, part, ongoing, prev_note, doc_order, prev_beam=Non
         tie_key = ("tie", getattr(note, "midi_pitch", "rest"))
         tie_types = set(tie.attrib["type"] for tie in ties)
 
+        # a tie stop can precede its tie start in document order (when
+        # the two notes are in different voices of the same measure)
+        stop_key = tie_key + ("stop",)
+
         if "stop" in tie_types:
             tie_prev = ongoing.get(tie_key, None)
 
@@ -1436,9 +1440,17 @@ def _handle_note(e, position, part, ongoing, prev_note, doc_order, prev_beam=Non
                 note.tie_prev = tie_prev
                 tie_prev.tie_next = note
                 del ongoing[tie_key]
+            else:
+                ongoing[stop_key] = note
 
         if "start" in tie_types:
-            ongoing[tie_key] = note
+            tie_next = ongoing.get(stop_key, None)
+            if tie_next is not None and tie_next.start.t == position + duration:
+                note.tie_next = tie_next
+                tie_next.tie_prev = note
+                del ongoing[stop_key]
+            else:
+                ongoing[tie_key] = note
 
     notations = e.find("notations")
 
